@@ -241,6 +241,9 @@ def run(tier):
             v.distinct((fam, text, pl))
             if v.cov["evaluations"] % 9000 == 1:
                 v.sample({"family": fam, "line": repr(text), "placement": pl, "opts": mask, "rc": r["rc"]})
+    # a rejection must not depend on the same text having been seen just before
+    rej = [({"fam": "bad_" + fam, "text": text}, mask, text) for (fam, text, m_, pl, mask, vb), r in zip(meta, res) if pl == "alone" and "crash" not in r and r["rc"] != 0 and fam != "hibyte"]
+    stats["rejected_resubmitted_ok"] = enc.retry_rejected(v, binary, rej if full else rnd.sample(rej, min(len(rej), 4000)))
     v.cov["rule"] = ("(i) every spec mnemonic x every operand-kind tuple over {scalar reg, xmm, ymm, memory, immediate} with 0-4 operands (781 tuples); a tuple is 'not defined in x86-64' iff nasm rejects ALL its "
                      "instantiations (live referee, %d lines this run), then instantiated for the library; (ii) every one-character edit of every register name that is lexically a name and not a register/keyword, in "
                      "register, memory-base and index positions; (iii) scales 0,3,5,6,7,9,10,16,42 in both factor orders; the stack pointer as scaled index, as index of itself, with every base; 8/16-bit, MMX, XMM and YMM registers as base or index and base/index of different widths; (iv) bracket / comma / "
